@@ -549,6 +549,7 @@ impl<'a, T: Send> Future for SendFuture<'a, T> {
         Ok(()) => {
           if let Some(id) = this.my_id.take() {
             shared.unregister_async_send(id);
+            shared.drip_on();
           }
           return Poll::Ready(Ok(()));
         }
@@ -618,6 +619,7 @@ impl<'a, T: Send> Future for BoundedSendBatchFuture<'a, T> {
         this.sent += valid;
         if let Some(id) = this.my_id.take() {
           shared.unregister_async_send(id);
+          shared.drip_on();
         }
         continue;
       }
@@ -683,6 +685,7 @@ impl<'a, T: Send> Future for BoundedSendBatchMutFuture<'a, T> {
         this.sent += valid;
         if let Some(id) = this.my_id.take() {
           shared.unregister_async_send(id);
+          shared.drip_on();
         }
         continue;
       }
